@@ -14,9 +14,22 @@ direction when the raw object UNDER the wrappers returns short reads (the
 ciphertext arrives in segments): every segmentation of the ciphertext x every
 split of the caller's requests.
 
+Part A-retain: the same histories over a raw socket stand-in that KEEPS the
+objects it is handed by send() and looks at them only at the end of the
+scenario (a buffering socket-like object), next to the one that copies at
+once.  Part A-fault (environment faults under the wrappers): the k-th raw
+send() / recv() / read() raises InterruptedError / BlockingIOError /
+BrokenPipeError, for every k of every small multi-call history.  Part A-conc
+(schedules): ONE wrapper pair, one agent sends, a second agent receives, every
+source line of encryption.py and the raw stand-in's own calls are scheduling
+points, all schedules within a preemption bound (vf.interleave).
+
 Part B (key exchange).  encrypt_token_and_secret under a 1024- and a 2048-bit
 key: the key holder decrypts with PKCS#1 v1.5 and must recover token and
-secret exactly.
+secret exactly.  Part B-conc (schedules): two agents call it at the same time
+(two logins of one process, same server key or two different ones), after a
+sequential history, followed by one more call per key on its own; every
+result must decrypt under the right key.
 
 Part C (seam for "fresh random bytes").  Real logins through the connection
 harness against vf.refserver.RefServer: the secret the server decrypts in the
@@ -34,10 +47,13 @@ draw made in that login, all pairwise distinct.  C-seg: the same end to end
 with vnet's read segmentation, so that encrypted packet bodies reach the
 client in two or more short reads.
 """
+import errno
 import hashlib
 import itertools
+import os
 import warnings
 
+from vf import explore, interleave
 from vf.runner import use_repo, jsonable, ToolError
 from vf.refproto.cfb8 import CFB8
 
@@ -84,8 +100,60 @@ RULE = (
     'cycling through {whole, (1,1,rest), (2,rest), (size-1,1)}, and '
     'equal segments of 1, 16, 17, 536, 1460 bytes x those four request '
     'patterns and requests of segment size + 1; receive style cycles.  '
+    'A-retain (the raw socket under the wrappers KEEPS the very objects it '
+    'is handed by send() and they are read as bytes when the history is '
+    'over - a buffering socket-like object - instead of being copied at the '
+    'time of the call): the A-full product again (4 secrets x 2 content '
+    'pairs x ALL compositions x ALL interleavings x 3 receive styles) for '
+    'm = 1..4, n = 0..4 (thorough 1..5 / 0..5); in A-KiB every case whose '
+    'index has bit 1 set runs over the keeping socket.  '
+    'A-fault (environment faults under the wrappers): m, n = 0..5 (thorough '
+    '0..6), not both 0, 4 secrets, content pair 1, ALL compositions of out x '
+    'ALL compositions of in, strictly alternating interleaving, receive '
+    'style alternating read/recv, x EVERY raw call of the history as the one '
+    'that fails (k-th raw socket.send, k-th raw socket.recv, k-th raw '
+    'file.read; one-shot, raised before a byte is accepted / handed out) x '
+    '{InterruptedError(EINTR), BlockingIOError(EAGAIN), '
+    'BrokenPipeError(EPIPE)}.  The caller stops the history when a send() '
+    'raises, repeats a receive call once that raised InterruptedError / '
+    'BlockingIOError, stops when a receive call raised BrokenPipeError.  '
+    'Oracle: EITHER the error reaches the caller - then the wire holds the '
+    'reference CFB8 stream of the sends that completed (plus at most a '
+    'prefix of the ciphertext of the failed one) - OR no error is reported - '
+    'then the whole out stream must be on the wire as one CFB8 stream; every '
+    'chunk a receive call returns is the reference decryption of the '
+    'ciphertext the raw object handed out for it; an exception out of a '
+    'wrapper call during which no raw call failed is a violation.  Which of '
+    'the two a wrapper does (report or retry) is NOT judged.  '
+    'A-conc (schedules, vf.interleave): ONE wrapper pair installed as '
+    'LoginReactor does over a raw socket/file stand-in; agent 0 sends the '
+    'out stream piece by piece, agent 1 receives the in stream call by call; '
+    'scheduling points: every source line of every function of '
+    'minecraft.networking.encryption and the entry of every raw send / recv '
+    '/ read (the call has been made, the raw object has not yet consumed its '
+    'argument / produced its result).  Shapes (how a direction is cut into '
+    'calls) quick: {(2), (1,2), (1,1,1)} for out x the same for in x '
+    'receiver {all socket.recv, all file.read}, secret 00..0f; thorough: all '
+    'compositions of 1..3 and (2,2), (1,2,1) for out x the same for in x '
+    '{recv, read, alternating}, plus the other 3 secrets on the shape (1,2) x '
+    '(2,1); plus the shape (1,2) x (2,1) over the keeping raw socket.  ALL '
+    'schedules with <= 2 preemptions (thorough: <= 3 when both directions '
+    'have at most 2 calls).  Oracle per schedule: wire == reference CFB8 of '
+    'the out stream, every received chunk == reference decryption of the '
+    'ciphertext bytes that call consumed, no exception.  '
     'B: every token length 1..64 x {zeros, ff, counter} x 4 secrets x '
     '{1024, 2048}-bit key.  '
+    'B-conc (schedules): a history of encrypt_token_and_secret calls in one '
+    'process that starts from freshly loaded module state: `pre` calls one '
+    'at a time (none, one under the 1024-bit key, one under the 2048-bit '
+    'key), then TWO agents call it at the same time under keys (1024, 2048) '
+    'or (1024, 1024) (thorough also (2048, 1024), (2048, 2048)), then one '
+    'call per key on its own in both orders ((1024, 2048) and (2048, 1024)); '
+    'every call has its own token (1..64 bytes) and secret; line points as '
+    'in A-conc; ALL schedules with <= 2 (thorough 3) preemptions.  Oracle: '
+    'EVERY result of the history - before, during and after the overlap - '
+    'decrypts under the private key of the server it was made for to '
+    'exactly (token, secret).  '
     'C: k = 1..3 consecutive logins x {same Connection object, separate '
     'Connection objects} x protocol versions {47, 340, 578, 757} x 4 verify '
     'tokens (1, 4, 16, 64 bytes), keep-alives and chat after each login; '
@@ -132,7 +200,7 @@ RULE = (
     'Cases are enumerated without repetition (distinct by construction); a '
     'part-A case is non-trivial when at least one direction is split into two '
     'or more calls, an A-seg case when at least one raw read was short, '
-    'every B and C case is non-trivial.')
+    'every A-fault, B and C case and every schedule is non-trivial.')
 ASSUMPTIONS = [
     'single-block AES (ECB of one 16-byte block) of the cryptography package '
     'is correct; the CFB8 mode logic of the oracle is hand-built and checked '
@@ -146,7 +214,26 @@ ASSUMPTIONS = [
     'wrappers hands out exactly min(n, available) bytes per read/recv; in '
     'A-seg it hands out min(n, rest of the current segment) (never nothing '
     'before the end of the stream, never more than asked); every send is '
-    'accepted completely',
+    'accepted completely (A-fault: except the one raw call that raises; it '
+    'raises before it accepts or hands out a single byte, and the '
+    'exceptions are built as the OS builds them, OSError(errno, text))',
+    'A-retain: a socket-like object may look at the object it was handed by '
+    'send() after send() has returned (a real socket copies during the '
+    'call); the wrappers are documented to take any socket-like object',
+    'A-fault: after a send() of the wrapper raised, the caller gives the '
+    'channel up (what a retry by the CALLER would put on the wire is not '
+    'judged); a receive call that raised a transient error is repeated by '
+    'the caller, and since the raw object had not handed out anything the '
+    'stream simply continues',
+    'A-conc / B-conc: threads switch only at the scheduling points (source '
+    'lines of encryption.py, entry of the raw calls); a switch inside one '
+    'source line or inside the cryptography package is not explored; one '
+    'sender and one receiver (pyCraft has one writer at a time under its '
+    'write lock and one reader); preemption-bounded, not all schedules',
+    'B-conc: the module state of a fresh process is produced by executing '
+    'the module body of encryption.py again (importlib.reload) before every '
+    'execution; state kept elsewhere (other modules, the cryptography '
+    'backend) is carried over between executions of one worker',
     'A-seg judges the receive direction alone (no sends interleaved); '
     'independence of the directions under exact raw reads is A-full',
     'C-hist: a login is the span from one connect() call to the next; the '
@@ -284,6 +371,73 @@ class _RawFile(object):
         return self.stream.take(n)
 
 
+class _KeepSock(_RawSock):
+    """Buffering socket-like object: send() KEEPS the very object it was
+    handed; the bytes are looked at when the scenario is over (wire())."""
+
+    def send(self, data):
+        self.sent.append(data)
+        return len(data)
+
+
+def wire_of(rs):
+    return b''.join(bytes(x) for x in rs.sent)
+
+
+# environment faults: what the k-th raw call raises (built like the OS does)
+FAULTS = (('InterruptedError', errno.EINTR), ('BlockingIOError', errno.EAGAIN),
+          ('BrokenPipeError', errno.EPIPE))
+TRANSIENT = ('InterruptedError', 'BlockingIOError')
+WHERE_TEXT = {'send': 'raw socket.send', 'recv': 'raw socket.recv',
+              'read': 'raw file.read'}
+
+
+class _Fault(object):
+    """One-shot: the k-th (1-based) raw call of kind `where` raises, before
+    it accepts or hands out a single byte; every other call works."""
+
+    def __init__(self, where, k, name):
+        self.where, self.k, self.name = where, k, name
+        self.n = 0
+        self.fired = False
+        err = dict(FAULTS)[name]
+        self.exc = OSError(err, os.strerror(err))
+        if type(self.exc).__name__ != name:
+            raise ToolError('OSError(%d) is a %s, not %s'
+                            % (err, type(self.exc).__name__, name))
+
+    def hit(self, where):
+        if where == self.where:
+            self.n += 1
+            if self.n == self.k:
+                self.fired = True
+                raise self.exc
+
+
+class _FaultSock(object):
+    def __init__(self, stream, fault, retain=False):
+        self.stream, self.sent = stream, []
+        self.fault, self.retain = fault, retain
+
+    def send(self, data):
+        self.fault.hit('send')
+        self.sent.append(data if self.retain else bytes(data))
+        return len(data)
+
+    def recv(self, n):
+        self.fault.hit('recv')
+        return self.stream.take(n)
+
+
+class _FaultFile(object):
+    def __init__(self, stream, fault):
+        self.stream, self.fault = stream, fault
+
+    def read(self, n):
+        self.fault.hit('read')
+        return self.stream.take(n)
+
+
 _ENV = {}
 
 
@@ -321,11 +475,14 @@ def ref_enc(secret, plain):
     return c
 
 
-def exec_case(E, secret, out_plain, in_plain, out_parts, in_calls, order):
-    """Run one history on the real wrappers.  -> None or (kind, text)."""
+def exec_case(E, secret, out_plain, in_plain, out_parts, in_calls, order,
+              retain=False):
+    """Run one history on the real wrappers.  -> None or (kind, text).
+    retain: the raw socket keeps the objects handed to send() and they are
+    read at the end of the history, not at the time of the call."""
     want_wire = ref_enc(secret, out_plain)
     stream = _Stream(ref_enc(secret, in_plain))
-    rs = _RawSock(stream)
+    rs = _KeepSock(stream) if retain else _RawSock(stream)
     try:
         sock, fobj = install(E, secret, rs, _RawFile(stream))
         op = oi = ic = 0
@@ -346,28 +503,143 @@ def exec_case(E, secret, out_plain, in_plain, out_parts, in_calls, order):
     except Exception as e:
         return ('exception', 'the wrappers raised %s: %s'
                 % (type(e).__name__, e))
-    wire = b''.join(rs.sent)
+    try:
+        wire = wire_of(rs) if retain else b''.join(rs.sent)
+    except Exception as e:
+        return ('out', 'what the wrapper handed to the raw socket cannot be '
+                'read as bytes afterwards: %s: %s' % (type(e).__name__, e))
     if wire != want_wire:
-        first = next((i for i, (x, y) in enumerate(zip(wire, want_wire))
-                      if x != y), min(len(wire), len(want_wire)))
-        back = '(not computed)'
-        if len(wire) <= 64:
-            back = CFB8(secret).decrypt(wire).hex()
-        return ('out', 'bytes handed to the raw socket are not the CFB8 '
-                'encryption (key = IV = secret) of the plaintext as one '
-                'stream: sent %s, expected %s (first difference at stream '
-                'offset %d, %d of %d bytes); the independent CFB8 decrypts '
-                'the wire bytes to %s'
-                % (wire[:24].hex(), want_wire[:24].hex(), first, len(wire),
-                   len(want_wire), back))
+        return ('out', _wire_text(secret, wire, want_wire) + (
+            ' (the raw socket kept the objects it was handed by send() and '
+            'read them when the history was over)' if retain else ''))
     if bad_in is not None:
-        i, kind, n, p0, p1, got = bad_in
-        return ('in.' + {'r': 'read', 'v': 'recv'}[kind],
-                'receive call #%d (%s(%d)) consumed reference ciphertext '
-                'bytes %d..%d and returned %s, expected plaintext %s'
-                % (i, 'file.read' if kind == 'r' else 'socket.recv', n, p0,
-                   p1, _short(got), in_plain[p0:p1][:24].hex()))
+        return _bad_in_text(bad_in, in_plain)
     return None
+
+
+def _wire_text(secret, wire, want_wire):
+    first = next((i for i, (x, y) in enumerate(zip(wire, want_wire))
+                  if x != y), min(len(wire), len(want_wire)))
+    back = '(not computed)'
+    if len(wire) <= 64:
+        back = CFB8(secret).decrypt(wire).hex()
+    return ('bytes handed to the raw socket are not the CFB8 '
+            'encryption (key = IV = secret) of the plaintext as one '
+            'stream: sent %s, expected %s (first difference at stream '
+            'offset %d, %d of %d bytes); the independent CFB8 decrypts '
+            'the wire bytes to %s'
+            % (wire[:24].hex(), want_wire[:24].hex(), first, len(wire),
+               len(want_wire), back))
+
+
+def _bad_in_text(bad_in, in_plain):
+    i, kind, n, p0, p1, got = bad_in
+    return ('in.' + {'r': 'read', 'v': 'recv'}[kind],
+            'receive call #%d (%s(%d)) consumed reference ciphertext '
+            'bytes %d..%d and returned %s, expected plaintext %s'
+            % (i, 'file.read' if kind == 'r' else 'socket.recv', n, p0,
+               p1, _short(got), in_plain[p0:p1][:24].hex()))
+
+
+def exec_fault(E, secret, out_plain, in_plain, out_parts, in_calls, order,
+               fault):
+    """One history with ONE environment fault under the wrappers (fault =
+    (where, k, exception name): the k-th raw send / recv / read raises).
+    The caller stops the whole history when a send() fails or a receive call
+    fails with a non-transient error; it repeats a receive call once that
+    failed with InterruptedError / BlockingIOError.
+    -> (None | (kind, text), info) with info = {'fired', 'reported'}."""
+    where, k, name = fault
+    flt = _Fault(where, k, name)
+    want_wire = ref_enc(secret, out_plain)
+    stream = _Stream(ref_enc(secret, in_plain))
+    rs = _FaultSock(stream, flt)
+    info = {'fired': False, 'reported': False}
+    what = 'the %s raw %s() call raised %s' % (_nth(k), where, name)
+    op = oi = ic = 0
+    bad_in = None
+    failed_send = None          # (piece index, lo, hi) of the send that raised
+    stopped = False
+    try:
+        sock, fobj = install(E, secret, rs, _FaultFile(stream, flt))
+    except Exception as e:
+        return ('exception', 'installing the wrappers raised %s: %s'
+                % (type(e).__name__, e)), info
+    for d in order:
+        if d:
+            n = out_parts[oi]
+            was = flt.fired
+            try:
+                sock.send(out_plain[op:op + n])
+            except Exception as e:
+                if was or not flt.fired:
+                    return ('exception', 'send #%d raised %s: %s although '
+                            'the raw socket accepted everything'
+                            % (oi, type(e).__name__, e)), info
+                info['reported'] = True
+                failed_send = (oi, op, op + n)
+                stopped = True
+                break
+            oi += 1
+            op += n
+        else:
+            kind, n = in_calls[ic]
+            for attempt in (0, 1):
+                p0 = stream.pos
+                was = flt.fired
+                try:
+                    got = fobj.read(n) if kind == 'r' else sock.recv(n)
+                except Exception as e:
+                    if was or not flt.fired:
+                        return ('exception', 'receive call #%d raised %s: %s '
+                                'although the raw object did not fail'
+                                % (ic, type(e).__name__, e)), info
+                    info['reported'] = True
+                    if name in TRANSIENT and attempt == 0:
+                        continue            # the caller tries again
+                    stopped = True
+                    break
+                if got != in_plain[p0:stream.pos] and bad_in is None:
+                    bad_in = (ic, kind, n, p0, stream.pos, got)
+                break
+            if stopped:
+                break
+            ic += 1
+    info['fired'] = flt.fired
+    wire = wire_of(rs)
+    if failed_send is not None:
+        i, lo, hi = failed_send
+        if not (lo <= len(wire) <= hi and wire == want_wire[:len(wire)]):
+            return ('out after a reported error', '%s and send #%d (plaintext '
+                    'bytes %d..%d) raised it to the caller, who stopped; the '
+                    'wire must then hold the CFB8 stream of the %d bytes of '
+                    'the sends that completed (and at most a part of the '
+                    'failed one), but: %s'
+                    % (what, i, lo, hi, lo,
+                       _wire_text(secret, wire, want_wire[:max(lo, min(
+                           len(wire), hi))]))), info
+    else:
+        want = want_wire[:op] if stopped else want_wire
+        if wire != want:
+            if flt.fired and where == 'send' and not info['reported']:
+                return ('out: no error and a corrupted stream', '%s, NO '
+                        'error reached the caller of the wrapper, and %s'
+                        % (what, _wire_text(secret, wire, want))), info
+            return ('out', '%s (%s); %s' % (
+                what, 'reported to the caller' if info['reported'] else
+                'fired' if flt.fired else 'never reached',
+                _wire_text(secret, wire, want))), info
+    if bad_in is not None:
+        kind, text = _bad_in_text(bad_in, in_plain)
+        return (kind, '%s (%s); %s' % (
+            what, 'the error reached the caller, who repeated the call'
+            if info['reported'] else 'no error reached the caller', text)), \
+            info
+    return None, info
+
+
+def _nth(k):
+    return '%d%s' % (k, {1: 'st', 2: 'nd', 3: 'rd'}.get(k, 'th'))
 
 
 def _short(x):
@@ -414,32 +686,46 @@ def _settle_violations(ctx):
 
 
 def _case_a(tag, sname, secret, out_plain, in_plain, out_parts, in_calls,
-            order):
-    return {'part': 'A', 'tag': tag, 'secret_name': sname, 'secret': secret,
+            order, retain=False, fault=None):
+    case = {'part': 'A', 'tag': tag, 'secret_name': sname, 'secret': secret,
             'out_plain': out_plain, 'in_plain': in_plain,
             'out_parts': list(out_parts),
             'in_calls': [[k, n] for k, n in in_calls],
             'order': list(order)}
+    if retain:
+        case['retain'] = 1
+    if fault is not None:
+        case['fault'] = list(fault)
+    return case
 
 
 def _judge_a(coll, tag, E, sname, secret, out_plain, in_plain, out_parts,
-             in_calls, order):
-    res = exec_case(E, secret, out_plain, in_plain, out_parts, in_calls,
-                    order)
+             in_calls, order, retain=False, fault=None, info=None):
+    if fault is None:
+        res = exec_case(E, secret, out_plain, in_plain, out_parts, in_calls,
+                        order, retain)
+    else:
+        res, inf = exec_fault(E, secret, out_plain, in_plain, out_parts,
+                              in_calls, order, fault)
+        if info is not None:
+            info.update(inf)
     if res is None:
         return True
     kind, text = res
     rank = (len(out_plain) + len(in_plain), len(order), sname,
-            list(out_parts), [list(c) for c in in_calls], list(order))
+            list(out_parts), [list(c) for c in in_calls], list(order),
+            list(fault or ()))
     coll.add('A.%s %s' % (tag, kind), rank,
              'secret %s (%s), out stream %s split %r, in stream %s received '
-             'as %r, call order %s (1 = send, 0 = receive): %s'
+             'as %r, call order %s (1 = send, 0 = receive)%s: %s'
              % (sname, secret.hex(), out_plain[:24].hex(), list(out_parts),
                 in_plain[:24].hex(), ['%s%d' % c for c in in_calls],
-                ''.join(map(str, order))[:80], text),
+                ''.join(map(str, order))[:80],
+                '' if fault is None else ', environment fault: the %s %s '
+                'call raises %s' % (_nth(fault[1]), WHERE_TEXT[fault[0]],
+                                    fault[2]), text),
              _case_a(tag, sname, secret, out_plain, in_plain, out_parts,
-                     in_calls,
-                     order))
+                     in_calls, order, retain, fault))
     return False
 
 
@@ -462,7 +748,9 @@ def _split_classes(cls, parts, who, mult):
 def w_full(ctx, task):
     """ALL compositions x ALL interleavings for one (secret, pair, m, n)."""
     import collections
-    si, pi, m, n, styles = task
+    si, pi, m, n, styles = task[:5]
+    retain = len(task) > 5 and bool(task[5])
+    tag = 'full-retain' if retain else 'full'
     E = env()
     sname, secret = secrets_for(ctx.seed)[si]
     out_plain = content(PAIRS[pi][0], m, ctx.seed)
@@ -487,9 +775,13 @@ def w_full(ctx, task):
             for style in styles:
                 calls = label(ci, style)
                 for o in orders:
-                    _judge_a(coll, 'full', E, sname, secret, out_plain,
-                             in_plain, co, calls, o)
+                    _judge_a(coll, tag, E, sname, secret, out_plain,
+                             in_plain, co, calls, o, retain)
                 ncase += nord
+                if retain:
+                    cls[RETAIN] += nord
+                    if a > 1 or (a and b):
+                        cls[RETAIN_LATER] += nord
                 if a > 1 or b > 1:
                     nontriv += nord
                 cls['A in: all file.read' if style == 'r' else
@@ -515,7 +807,7 @@ def w_full(ctx, task):
     for k, v in coll.n.items():
         ctx.outcome('A-full FAIL ' + k, v)
     coll.flush(ctx)
-    if (si, pi, m, n) == (2, 0, 3, 3) and len(styles) == 3:
+    if (si, pi, m, n) == (2, 0, 3, 3) and len(styles) == 3 and not retain:
         ctx.sample({'part': 'A-full', 'secret': secret, 'out_plain':
                     out_plain, 'in_plain': in_plain, 'wire': ref_enc(
                         secret, out_plain), 'compositions_out': 4,
@@ -562,6 +854,76 @@ def w_long(ctx, task):
     for k, v in coll.n.items():
         ctx.outcome('A-long FAIL ' + k, v)
     coll.flush(ctx)
+
+
+RETAIN = 'A raw socket keeps the objects handed to send() and reads them ' \
+    'at the end of the history'
+RETAIN_LATER = 'A raw socket keeps the objects: a wrapper call follows a ' \
+    'send whose argument is still unread'
+F_REPORTED = 'A-fault: the error reached the caller of the wrapper'
+F_ABSORBED = 'A-fault: the raw call failed, no error reached the caller'
+
+
+def fault_points(out_parts, in_calls):
+    """(where, k): every raw call of the fault-free history can be the one
+    that fails (the wrappers make one raw call per call)."""
+    pts = [('send', k) for k in range(1, len(out_parts) + 1)]
+    pts += [('recv', k) for k in range(
+        1, sum(1 for c in in_calls if c[0] == 'v') + 1)]
+    pts += [('read', k) for k in range(
+        1, sum(1 for c in in_calls if c[0] == 'r') + 1)]
+    return pts
+
+
+def w_fault(ctx, task):
+    """ALL compositions of both directions (alternating interleaving,
+    alternating read/recv) x every raw call failing x 3 errors."""
+    import collections
+    si, m, n = task
+    E = env()
+    sname, secret = secrets_for(ctx.seed)[si]
+    out_plain = content(PAIRS[0][0], m, ctx.seed)
+    in_plain = content(PAIRS[0][1], n, ctx.seed)
+    coll = _Coll()
+    cls = collections.Counter()
+    ncase = bad = 0
+    for co in compositions(m):
+        for ci in compositions(n):
+            calls = label(ci, 'x')
+            order = alternating(len(co), len(calls))
+            for where, k in fault_points(co, calls):
+                for name, _ in FAULTS:
+                    info = {}
+                    ok = _judge_a(coll, 'fault', E, sname, secret, out_plain,
+                                  in_plain, co, calls, order,
+                                  fault=(where, k, name), info=info)
+                    ncase += 1
+                    bad += not ok
+                    if info.get('fired'):
+                        cls['A-fault: %s raised' % WHERE_TEXT[where]] += 1
+                        cls['A-fault: %s' % name] += 1
+                        cls[F_REPORTED if info.get('reported')
+                            else F_ABSORBED] += 1
+                        if where == 'send' and 1 < k:
+                            cls['A-fault: a send fails after earlier sends '
+                                'completed'] += 1
+                        if where == 'send' and k < len(co):
+                            cls['A-fault: a send fails and more were to '
+                                'follow'] += 1
+                    else:
+                        cls['A-fault: the fault point was never reached'] += 1
+    ctx.count(ncase)
+    ctx.note_distinct(ncase)
+    for k, v in cls.items():
+        ctx.cls(k, v)
+    ctx.outcome('A-fault ok', ncase - bad)
+    for k, v in coll.n.items():
+        ctx.outcome('A-fault FAIL ' + k, v)
+    coll.flush(ctx)
+    if task == (2, 3, 3):
+        ctx.sample({'part': 'A-fault', 'secret': secret, 'out_plain':
+                    out_plain, 'in_plain': in_plain, 'cases': ncase,
+                    'errors': [f[0] for f in FAULTS]})
 
 
 def w_empty(ctx, task):
@@ -647,9 +1009,14 @@ def w_kib(ctx, task):
         co = _parts(size, cuts)
         ci = _parts(size, tuple(sorted(size - c for c in cuts)))
         calls = label(ci, 'x' if idx & 1 else 'r')
-        ok = _judge_a(coll, 'kib', E, sname, secret, out_plain, in_plain, co,
-                      calls, alternating(len(co), len(calls)))
+        retain = bool(idx & 2)
+        ok = _judge_a(coll, 'kib-retain' if retain else 'kib', E, sname,
+                      secret, out_plain, in_plain, co, calls,
+                      alternating(len(co), len(calls)), retain)
         n += 1
+        if retain:
+            ctx.cls(RETAIN)
+            ctx.cls('A KiB: raw socket keeps the objects handed to send()')
         bad += not ok
         ctx.cls('A KiB: %d bytes, %d-cut partition' % (size, len(cuts)))
         if any(c % 16 for c in cuts):
@@ -1685,19 +2052,355 @@ def hist_tasks(ctx):
     return t
 
 
+# -- concurrent sections (vf.interleave): all schedules within a bound ------
+
+CONC_MODULES = ['minecraft.networking.encryption']
+
+
+class _SchedSock(object):
+    """Raw socket for the schedule scenarios.  Entering send()/recv() is a
+    scheduling point of its own: the call has been made (the wrapper has
+    handed over its argument) but the socket has not consumed / produced
+    anything yet - where a real system call runs without the interpreter
+    lock."""
+
+    def __init__(self, S, stream, retain=False):
+        self.S, self.stream, self.sent, self.retain = S, stream, [], retain
+
+    def send(self, data):
+        self.S.point('raw.send')
+        self.sent.append(data if self.retain else bytes(data))
+        return len(data)
+
+    def recv(self, n):
+        self.S.point('raw.recv')
+        return self.stream.take(n)
+
+
+class _SchedFile(object):
+    def __init__(self, S, stream):
+        self.S, self.stream = S, stream
+
+    def read(self, n):
+        self.S.point('raw.read')
+        return self.stream.take(n)
+
+
+LINES_SEEN = 'choice at a source line of encryption.py'
+
+
+def _line_flag(W):
+    """Was a source line of encryption.py a choice point of this execution?
+    (guard: the line points must be armed on the module as loaded now)"""
+    return LINES_SEEN if any(str(p[2][0]).startswith('line:')
+                             for p in W.S.points) else 'no line point'
+
+
+def conc_body_a(W, params):
+    """ONE wrapper pair (installed as LoginReactor does); agent 0 sends the
+    out stream piece by piece, agent 1 receives the in stream call by call
+    (socket.recv and/or file.read on the shared decryptor)."""
+    E = W.E
+    fresh_module(E)
+    seed = params['seed']
+    sname, secret = secrets_for(seed)[params['si']]
+    out_parts = tuple(params['out'])
+    in_calls = tuple((k, n) for k, n in params['in'])
+    out_plain = content(PAIRS[0][0], sum(out_parts), seed)
+    in_plain = content(PAIRS[0][1], sum(n for _, n in in_calls), seed)
+    want_wire = ref_enc(secret, out_plain)
+    stream = _Stream(ref_enc(secret, in_plain))
+    rs = _SchedSock(W.S, stream, bool(params.get('retain')))
+    sock, fobj = install(E, secret, rs, _SchedFile(W.S, stream))
+
+    def sender():
+        p = 0
+        for n in out_parts:
+            sock.send(out_plain[p:p + n])
+            p += n
+
+    def receiver():
+        got = []
+        for kind, n in in_calls:
+            p0 = stream.pos
+            g = fobj.read(n) if kind == 'r' else sock.recv(n)
+            got.append((kind, n, p0, stream.pos, g))
+        return got
+    res = interleave.race(W, [sender, receiver], {0: 'sender', 1: 'receiver'})
+    who = 'secret %s (%s), agent 0 sends %s in pieces %r while agent 1 ' \
+        'receives %s with calls %r on the same wrapper pair' % (
+            sname, secret.hex(), out_plain.hex(), list(out_parts),
+            in_plain.hex(), ['%s%d' % c for c in in_calls])
+    viol = []
+    for i, r in enumerate(res):
+        if r is None or r[0] != 'ok':
+            viol.append(('exception', '%s: the %s raised %s'
+                         % (who, ('sender', 'receiver')[i],
+                            r[1] if r else 'nothing (did not run)')))
+    if not viol:
+        wire = wire_of(rs)
+        if wire != want_wire:
+            viol.append(('out', '%s: %s' % (who, _wire_text(secret, wire,
+                                                            want_wire))))
+        for ic, (kind, n, p0, p1, g) in enumerate(res[1][1]):
+            if g != in_plain[p0:p1]:
+                viol.append(_bad_in_text((ic, kind, n, p0, p1, g), in_plain))
+                viol[-1] = (viol[-1][0], '%s: %s' % (who, viol[-1][1]))
+                break
+    return {'outcome': (tuple(k for k, _ in viol) or ('ok',))
+            + (_line_flag(W),), 'violations': viol}
+
+
+B_TOKEN_LENS = (4, 16, 1, 64, 7)
+
+
+def _b_call(c):
+    """(token, secret) of the c-th call of a B-conc scenario: all distinct."""
+    n = B_TOKEN_LENS[c % len(B_TOKEN_LENS)]
+    return (bytes((17 * c + 3 + j) & 0xFF for j in range(n)),
+            _h(b'c18 b-conc secret %d' % c, 16))
+
+
+def _b_check(key, blobs, token, secret):
+    """-> None or text: what the key holder gets out of (enc token, enc
+    secret)."""
+    from cryptography.hazmat.primitives.asymmetric.padding import PKCS1v15
+    try:
+        enc_token, enc_secret = blobs
+        enc_token, enc_secret = bytes(enc_token), bytes(enc_secret)
+    except Exception:
+        return 'returned %r, expected a pair of byte strings' % (blobs,)
+    for what, blob, want in (('token', enc_token, token),
+                             ('secret', enc_secret, secret)):
+        try:
+            got = key.decrypt(blob, PKCS1v15())
+        except Exception as e:
+            return 'the key holder cannot decrypt the encrypted %s (%d ' \
+                'bytes) with PKCS#1 v1.5: %s' % (what, len(blob),
+                                                 type(e).__name__)
+        if got != want:
+            return 'the key holder recovers %s = %s, expected %s' % (
+                what, got[:32].hex(), want.hex())
+    return None
+
+
+def conc_body_b(W, params):
+    """History: `pre` sequential calls, then two agents call
+    encrypt_token_and_secret at the same time (keys params['race']), then
+    `after` sequential calls; each call has its own token and secret."""
+    from vf import harness
+    E = W.E
+    fresh_module(E)
+    calls = []          # (phase, bits, token, secret, result)
+
+    def one(phase, bits):
+        c = len(calls)
+        token, secret = _b_call(c)
+        rec = [phase, bits, token, secret, None]
+        calls.append(rec)
+        der = harness.rsa_key(bits)[1]
+
+        def f():
+            return E.encrypt_token_and_secret(der, token, secret)
+        return rec, f
+
+    def seq(phase, bits):
+        rec, f = one(phase, bits)
+        try:
+            rec[4] = ('ok', f())
+        except Exception as e:
+            rec[4] = ('exc', '%s: %s' % (type(e).__name__, e))
+    for bits in params['pre']:
+        seq('before', bits)
+    pair = [one('race', bits) for bits in params['race']]
+    res = interleave.race(W, [f for _, f in pair])
+    for (rec, _), r in zip(pair, res):
+        rec[4] = r
+    for bits in params['after']:
+        seq('after', bits)
+    hist = 'calls in this process: %s; then two threads at the same time: ' \
+        '%s; then one at a time: %s' % (
+            ['RSA-%d' % b for b in params['pre']] or 'none',
+            ['RSA-%d' % b for b in params['race']],
+            ['RSA-%d' % b for b in params['after']])
+    viol = []
+    flags = []
+    for c, (phase, bits, token, secret, r) in enumerate(calls):
+        if r is None or r[0] != 'ok':
+            bad = 'raised %s' % (r[1] if r else 'nothing (did not run)')
+        else:
+            bad = _b_check(harness.rsa_key(bits)[0], r[1], token, secret)
+        flags.append(0 if bad is None else 1)
+        if bad is not None:
+            key = {'before': 'call before the overlap',
+                   'race': 'one of two overlapping calls',
+                   'after': 'call made on its own after the overlap'}[phase]
+            if key not in [k for k, _ in viol]:
+                viol.append((key, 'encrypt_token_and_secret(public key of '
+                             'the RSA-%d server, token %s, secret %s) - call '
+                             '#%d of the history (%s) - %s [%s]'
+                             % (bits, token.hex(), secret.hex(), c + 1, key,
+                                bad, hist)))
+    return {'outcome': tuple(flags) + (_line_flag(W),), 'violations': viol}
+
+
+def fresh_module(E):
+    """Module state of encryption.py as in a process that has not used it
+    yet: its body is executed again (importlib.reload: same module object,
+    new globals, functions and classes), the scripted OS seam is put back and
+    the new functions get their line points.  Without this, what one
+    execution leaves behind in module globals would be the start state of
+    the next one in the same worker, and a schedule would not mean the same
+    thing twice."""
+    import importlib
+    import sys
+    from vf import pysched
+    shim = E.os
+    importlib.reload(E)
+    E.os = shim
+    # (not pysched.add_line_points: the new code objects compare EQUAL to the
+    # ones of the previous load, it would take them for armed already)
+    mon = sys.monitoring
+    for f in interleave.functions_of(E):
+        code = f.__code__
+        pysched._LINE_CODES.add(code)
+        mon.set_local_events(pysched._TOOL, code, mon.get_local_events(
+            pysched._TOOL, code) | mon.events.LINE)
+
+
+def conc_factory(params):
+    body = {'A-conc': conc_body_a, 'B-conc': conc_body_b}[params['kind']]
+
+    def scenario(prefix, expect, visited=None, budget=0):
+        return interleave.run(lambda W: body(W, params), prefix, expect,
+                              budget, modules=CONC_MODULES)
+    return scenario
+
+
+A_SHAPES_QUICK = ((2,), (1, 2), (1, 1, 1))
+
+
+def conc_tasks(ctx):
+    """-> [(params, preemption bound, label)]"""
+    out = []
+
+    def a_task(si, style, co, ci, bound, retain=0):
+        p = {'kind': 'A-conc', 'seed': ctx.seed, 'si': si, 'out': list(co),
+             'in': [list(c) for c in label(ci, style)]}
+        if retain:
+            p['retain'] = 1
+        out.append((p, bound, 'A-conc '))
+    # B-conc: (a, b) and (b, a) differ only in which call index (token
+    # length) meets which key: thorough only
+    a, b = 1024, 2048
+    races = ((a, b), (a, a), (b, a), (b, b)) if ctx.thorough \
+        else ((a, b), (a, a))
+    for pre in ((), (a,), (b,)):
+        for race in races:
+            for after in ((a, b), (b, a)):
+                out.append(({'kind': 'B-conc', 'pre': list(pre),
+                             'race': list(race), 'after': list(after)},
+                            3 if ctx.thorough else 2, 'B-conc '))
+    # A-conc: shapes = how the 2..4 bytes of a direction are cut into calls
+    if ctx.thorough:
+        shapes = [c for L in (1, 2, 3) for c in compositions(L)] \
+            + [(2, 2), (1, 2, 1)]
+        styles = 'vrx'
+    else:
+        shapes = list(A_SHAPES_QUICK)
+        styles = 'vr'
+    for style in styles:
+        for co in shapes:
+            for ci in shapes:
+                deep = ctx.thorough and len(co) <= 2 and len(ci) <= 2
+                a_task(2, style, co, ci, 3 if deep else 2)
+        # the raw socket that keeps the objects, under schedules; the other
+        # secrets (the key has no influence on where a switch can fall)
+        a_task(2, style, (1, 2), (2, 1), 2, retain=1)
+        if ctx.thorough:
+            for si in (0, 1, 3):
+                a_task(si, style, (1, 2), (2, 1), 2)
+    return out
+
+
+def run_conc(ctx, ex):
+    tasks = conc_tasks(ctx)
+    execs = {'A-conc': 0, 'B-conc': 0}
+    broken = set()
+    for params, bound, lab in tasks:
+        if params['kind'] in broken:
+            continue        # (one failing scenario per kind is enough)
+        res = ex.explore(ctx, conc_factory, params, bound, label=lab)
+        if res.violations:
+            broken.add(params['kind'])
+        execs[params['kind']] += res.execs
+        ctx.note_distinct(res.execs)
+        ctx.cls('%s: %s' % (params['kind'], LINES_SEEN),
+                sum(n for o, n in res.outcomes.items() if LINES_SEEN in o))
+        if params['kind'] == 'A-conc':
+            ctx.cls('A-conc: one agent sends while another receives on the '
+                    'same wrapper pair, all schedules', res.execs)
+            kinds = set(c[0] for c in params['in'])
+            ctx.cls('A-conc: receiver uses %s' % (
+                'socket.recv and file.read' if len(kinds) == 2 else
+                'file.read' if 'r' in kinds else 'socket.recv'), res.execs)
+            if res.with_pre:
+                ctx.cls('A-conc: schedules with a preemption', res.with_pre)
+        else:
+            ctx.cls('B-conc: two overlapping encrypt_token_and_secret calls, '
+                    'all schedules', res.execs)
+            ctx.cls('B-conc: %s' % ('same key in both threads'
+                                    if params['race'][0] == params['race'][1]
+                                    else 'two different keys'), res.execs)
+            if params['pre']:
+                ctx.cls('B-conc: another call was made before the overlap',
+                        res.execs)
+            if res.with_pre:
+                ctx.cls('B-conc: schedules with a preemption', res.with_pre)
+    ctx.extra['concurrent'] = {
+        'scenarios': len(tasks),
+        'preemption_bound': {
+            k: max(b for p, b, _ in tasks if p['kind'] == k)
+            for k in ('A-conc', 'B-conc')},
+        'schedules_executed': execs,
+        'points': 'every source line of ' + ', '.join(CONC_MODULES)
+        + ' and every call of the raw socket / file stand-in'}
+    need = ['A-conc: ' + LINES_SEEN, 'B-conc: ' + LINES_SEEN,
+            'A-conc: schedules with a preemption',
+            'A-conc: receiver uses socket.recv',
+            'A-conc: receiver uses file.read',
+            'B-conc: schedules with a preemption',
+            'B-conc: same key in both threads', 'B-conc: two different keys',
+            'B-conc: another call was made before the overlap']
+    missing = [k for k in need if not ctx.classes.get(k)]
+    if missing and not ctx.violations:
+        raise ToolError('vacuity guard: classes never hit: %r' % missing)
+
+
 # -- driver -------------------------------------------------------------------
 
 def bounds(ctx):
     if ctx.thorough:
         return dict(full=7, full_both_pairs=6, long=range(8, 13),
                     both_pairs_to=10, empty=5, seg=9, seg_both_pairs=8,
-                    seg_over=6)
+                    seg_over=6, retain=5, fault=6)
     return dict(full=6, full_both_pairs=6, long=range(7, 11),
                 both_pairs_to=8, empty=5, seg=8, seg_both_pairs=6,
-                seg_over=5)
+                seg_over=5, retain=4, fault=5)
 
 
 def run(ctx):
+    ex = explore.Explorer(memo=False)   # forks its workers before anything runs
+    try:
+        _run(ctx)
+        # (schedules only of a tree whose sequential behaviour is right)
+        if not ctx.violations:
+            run_conc(ctx, ex)
+    finally:
+        ex.close()
+
+
+def _run(ctx):
     b = bounds(ctx)
     ctx.pmap(w_keys, [0])
     # part A + B: plain function calls, one pool
@@ -1715,7 +2418,15 @@ def run(ctx):
                         full += [(si, pi, m, n, (st,)) for st in 'rvx']
                     else:
                         full.append((si, pi, m, n, ('r', 'v', 'x')))
+    # A-retain: the same product over the raw socket that keeps the objects
+    R = b['retain']
+    full += [(si, pi, m, n, ('r', 'v', 'x') if n else ('r',), 1)
+             for si in range(4) for pi in range(2)
+             for m in range(1, R + 1) for n in range(R + 1)]
     full.sort(key=lambda t: (-(t[2] + t[3]), t))
+    faults = [(si, m, n) for si in range(4) for m in range(b['fault'] + 1)
+              for n in range(b['fault'] + 1) if m or n]
+    faults.sort(key=lambda t: (-(t[1] + t[2]), t))
     longs = []
     for L in b['long']:
         nshard = max(1, 1 << max(0, 2 * (L - 1) - 15))
@@ -1752,6 +2463,7 @@ def run(ctx):
     ctx.pmap(w_kib, kib)
     ctx.pmap(w_seg_kib, seg_kib)
     ctx.pmap(w_empty, empties)
+    ctx.pmap(w_fault, faults)
     ctx.pmap(w_rsa, rsa)
     # part C: harness executions, only ever inside workers
     tasks_c = [(style, k, v, ti, 'plain', 0)
@@ -1770,6 +2482,7 @@ def run(ctx):
     _settle_violations(ctx)
     ctx.extra['bounds'] = {
         'full_product_max_len': F, 'long_lengths': list(b['long']),
+        'retain_product_max_len': R, 'fault_max_len': b['fault'],
         'kib_partitions': {str(s): len(kib_cuts(ctx, s)) for s in SIZES_KIB},
         'seg_max_len': b['seg'],
         'seg_kib_cases': {str(s): len(seg_kib_cases(ctx, s))
@@ -1782,7 +2495,12 @@ def run(ctx):
     need = ['A interleaving: directions alternate every call',
             'A out: every call 1 byte', 'A in: every call 1 byte',
             'A in: read and recv alternate on the shared decryptor',
-            'A empty: send(b"") inserted',
+            'A empty: send(b"") inserted', RETAIN, RETAIN_LATER,
+            'A KiB: raw socket keeps the objects handed to send()',
+            F_REPORTED, 'A-fault: a send fails after earlier sends completed',
+            'A-fault: a send fails and more were to follow'] + [
+            'A-fault: %s raised' % w for w in WHERE_TEXT.values()] + [
+            'A-fault: %s' % f[0] for f in FAULTS] + [
             'B token differs from secret (swap visible)',
             'C 3 consecutive login(s), same Connection object',
             'C a queued packet waits when the encryption request is handled '
@@ -1803,12 +2521,24 @@ def run(ctx):
 def replay(ctx, case):
     ctx.count()
     coll = _Coll()
+    if 'choices' in case:
+        x = conc_factory(case['params'])(list(case['choices']), None, None,
+                                         'replay')
+        res = x.result or {}
+        viol = list(res.get('violations', ()))
+        if x.failure is not None:
+            viol.append((x.failure[0], '%s: %s' % x.failure))
+        for key, what in viol:
+            ctx.violation('%s %s' % (case['params']['kind'], key), what, case)
+        return
     if case['part'] == 'A':
+        flt = case.get('fault')
         _judge_a(coll, case.get('tag', 'replay'), env(), case['secret_name'],
                  case['secret'], case['out_plain'], case['in_plain'],
                  tuple(case['out_parts']),
                  tuple((k, n) for k, n in case['in_calls']),
-                 tuple(case['order']))
+                 tuple(case['order']), bool(case.get('retain')),
+                 (flt[0], flt[1], flt[2]) if flt else None)
     elif case['part'] == 'A-seg':
         _judge_seg(coll, case.get('tag', 'replay'), env(),
                    case['secret_name'], case['secret'], case['in_plain'],
